@@ -212,10 +212,10 @@ static Value genDensity(vg::Rng &r, bool big) {
     tx.push(x);
     ty.push(yy);
   }
-  static const char *ops[] = {"run", "refine", "improve", "refineX", "refineY", "coarsenX", "coarsenY", "coarsenFully", "refineFully", "retarget"};
+  static const char *ops[] = {"run", "refine", "improve", "refineX", "refineY", "coarsenX", "coarsenY", "coarsenFully", "refineFully", "retarget", "badUpdate"};
   Value seq = Value::array();
   int nOps = (int)r.in(2, 10);
-  for (int k = 0; k < nOps; ++k) seq.push(ops[r.in(0, 9)]);
+  for (int k = 0; k < nOps; ++k) seq.push(ops[r.in(0, 10)]);
   Value pr = Value::object();
   pr.set("cost", r.in(0, 5)).set("steps", r.in(0, 2));
   int ls = (int)r.pick(std::vector<int>{1, 2, 3, 8}), ds = (int)r.pick(std::vector<int>{1, 2, 3, 8}), ss = (int)r.in(1, 4);
@@ -483,6 +483,9 @@ static void logHier(int run, int step, const std::string &op, bool skipped, cons
     e.set("sy0", (long long)std::floor(sy[c] * inv)).set("sy1", (long long)std::ceil(sy[c] * inv));
     cells.push(e);
   }
+  Value od = Value::array();
+  for (int c = 0; c < leg.nbCells(); ++c) od.push(area(leg.cellDemand(c)));
+  ev.set("objDemands", od);
   ev.set("cells", cells).set("totalCap", area(leg.totalCapacity())).set("units", units).set("kshift", ks);
   vt::emit(ev);
 }
@@ -549,6 +552,32 @@ static void runDensity(int run, const Value &in) {
         std::vector<int> dst = leg.binCells(bi, bj);
         dst.push_back(c);
         leg.setBinCells(bi, bj, dst);
+      } else skipped = true;
+    }
+    else if (op == "badUpdate") {
+      // an update of the cell demands that must be refused (one cell would switch between zero and non-zero area): the
+      // exception is caught and the placement keeps being used; nothing may have changed
+      const int n = leg.nbCells();
+      if (n >= 2 && g_kshift == 0) {
+        Circuit cc(n);
+        std::vector<int> w(n), h(n, 1);
+        std::vector<bool> fixed(n, false);
+        for (int i = 0; i < n; ++i) w[i] = leg.cellDemand(i) + (i % 2 == 0 ? 1 : 0);   // the earlier cells get other (valid) demands
+        int victim = n - 1;                                                          // the last cell flips between zero and non-zero
+        if (leg.cellDemand(victim) == 0) w[victim] = 3;
+        else fixed[victim] = true;
+        for (int i = 0; i < n - 1; ++i)
+          if (leg.cellDemand(i) == 0) w[i] = 0;
+        cc.setCellWidth(w);
+        cc.setCellHeight(h);
+        cc.setCellIsFixed(fixed);
+        bool threw = false;
+        try {
+          leg.updateCellDemand(cc);
+        } catch (std::exception &) {
+          threw = true;
+        }
+        if (!threw) skipped = true;   // cannot happen on the unchanged code; the state check below still applies
       } else skipped = true;
     }
     else if (op == "retarget") {
